@@ -70,7 +70,7 @@ def gen_model(ch, stochastic=False, max_states=5, max_events=5, only_T=False, hy
     limits = [None] * ns
     if sstyle in ("list", "tuples"):
         for i in range(ns):
-            limits[i] = ch.choose("lim%d" % i, [None, (0, None), (None, 4), (0, 3), (None, None), (1, None), (0, 1000000)])
+            limits[i] = ch.choose("lim%d" % i, [None, (0, None), (None, 4), (0, 3), (None, None), (1, None), (0, 1000000), (-3, 0)])
             if limits[i] is not None:
                 limits[i] = tuple(limits[i])
     nder = 0 if stochastic and False else ch.choose("n_derived", [0, 1])
@@ -274,6 +274,11 @@ def seed_values(name):
              "lim0": (0, 3), "lim1": (0, None)}
         v.update(_ev(0, "constant", "beta", trans=[("D", "S", None, "2")]))
         v.update(_ev(1, "linear", "gamma", "S", trans=[("T", "S", "I", "1"), ("B", None, "I", "1")]))
+        return v
+    if name == "NONPOS":  # a non-positive "deficit" state: upper limit exactly 0, lower limit -3; constant rates
+        v = {"n_states": 2, "n_params": 2, "n_events": 2, "lim0": (-3, 0), "lim1": (0, None)}
+        v.update(_ev(0, "constant", "beta", trans=[("B", None, "S", "2")]))
+        v.update(_ev(1, "constant", "gamma", trans=[("T", "S", "I", "1")]))
         return v
     if name == "CAPPED":  # births into a state with an upper limit
         v = {"n_states": 2, "n_params": 2, "n_events": 2, "lim0": (None, 4), "lim1": (1, None)}
